@@ -41,12 +41,13 @@ type batch struct {
 }
 
 type searchObs struct {
-	Index      string  `json:"index"`
-	Text       string  `json:"text"`
-	AckedStart []int64 `json:"ackedStart"` // vids (of this index) whose flush had completed when the search began
-	Got        []int64 `json:"got"`
-	Err        string  `json:"err,omitempty"`
-	DuringRot  bool    `json:"duringRot"` // a rotation completed while the search ran
+	Index      string   `json:"index"`
+	Text       string   `json:"text"`
+	Odd        []string `json:"odd,omitempty"` // hits without a usable _vid, verbatim
+	AckedStart []int64  `json:"ackedStart"`    // vids (of this index) whose flush had completed when the search began
+	Got        []int64  `json:"got"`
+	Err        string   `json:"err,omitempty"`
+	DuringRot  bool     `json:"duringRot"` // a rotation completed while the search ran
 }
 
 type progResult struct {
@@ -135,10 +136,17 @@ func init() {
 				hdr = hdr[:i] + "]:"
 			}
 			top := hdr
+			depth := 3
+			if strings.Contains(hdr, "[running") || strings.Contains(hdr, "[runnable") {
+				depth = 16 // a goroutine that is still computing: show where it comes from
+			}
 			for _, l := range lines[1:] {
 				if !strings.HasPrefix(l, "\t") {
+					if i := strings.Index(l, "("); depth > 3 && i > 0 {
+						l = l[:i] // drop argument values, they differ between samples
+					}
 					top += " | " + l
-					if strings.Count(top, "|") >= 3 {
+					if strings.Count(top, "|") >= depth {
 						break
 					}
 				}
@@ -260,6 +268,9 @@ func runProgramme(p *programme) *progResult {
 							ob.Got = append(ob.Got, int64(v))
 						default:
 							ob.Got = append(ob.Got, -1)
+							if len(ob.Odd) < 3 {
+								ob.Odd = append(ob.Odd, fmt.Sprintf("%v", h))
+							}
 						}
 					}
 				}
